@@ -10,6 +10,8 @@
 //   p:<b>:<tb>.<to>|null         write_data(&ptr) + make_ptr_relocatable (parser.c emit_with_arg_reloc)
 //   k:<b>.<off>:<hex>            memcpy into allocated memory
 //   ref:<b>.<off>                yr_arena_ptr_to_ref of the pointer stored in the slot -> <b>.<off> | null | notfound
+//   rt:<tb>.<to>|null            yr_arena_ptr_to_ref(yr_arena_ref_to_ptr(target)) -> <b>.<off> | null | notfound
+//   rs:<b>.<off>:<target>:<0|1>  make_ptr_relocatable(slot) and *(void**)slot = yr_arena_ref_to_ptr(target); 1: store first, then register
 //   save                         yr_arena_save_stream -> S=<hex image>
 //   load:<mut>:<seed>:<maxchunk> save, mutate (full | p<n> | w<off>:<hex>… written w<off>.<hex>), yr_arena_load_stream through a
 //                                chunking stream -> L=<rc>[:<hex image re-saved from the loaded arena>:<read requests>]
@@ -111,6 +113,25 @@ static void child(void* arg)
       if (!parse_ref(p[1], &slot)) { printf(" BADOP"); continue; }
       memcpy(&v, (uint8_t*) yr_arena_get_ptr(A, slot.buffer_id, slot.offset), sizeof v);
       if (yr_arena_ptr_to_ref(A, v, &r)) show_ref(r); else printf(" notfound");
+    }
+    else if (!strcmp(p[0], "rt") && np == 2)
+    {
+      YR_ARENA_REF target, r;
+      if (!parse_ref(p[1], &target)) { printf(" BADOP"); continue; }
+      void* v = yr_arena_ref_to_ptr(A, &target);
+      if (yr_arena_ptr_to_ref(A, v, &r)) show_ref(r); else printf(" notfound");
+    }
+    else if (!strcmp(p[0], "rs") && np == 4)
+    {
+      YR_ARENA_REF slot, target;
+      if (!parse_ref(p[1], &slot) || !parse_ref(p[2], &target)) { printf(" BADOP"); continue; }
+      int store_first = atoi(p[3]);
+      int rc = ERROR_SUCCESS;
+      void* v = yr_arena_ref_to_ptr(A, &target);
+      if (store_first) memcpy((uint8_t*) yr_arena_get_ptr(A, slot.buffer_id, slot.offset), &v, sizeof v);
+      rc = yr_arena_make_ptr_relocatable(A, slot.buffer_id, (size_t) slot.offset, EOL);
+      if (!store_first) memcpy((uint8_t*) yr_arena_get_ptr(A, slot.buffer_id, slot.offset), &v, sizeof v);
+      printf(" %s", errname(rc));
     }
     else if (!strcmp(p[0], "save") && np == 1)
     {
